@@ -696,6 +696,9 @@ def s_div(a, b):
             return Unk('x/0')
         return Fr(int(a), int(b))
     if isinstance(b, (int, Fr)) and b == 0:
+        h = getattr(a, 'divzero_', None)
+        if h is not None:
+            return h()                   # abstract elements keep their identity (inf / nan of the same dtype kind)
         return Unk('x/0')
     return _wrap2(operator.truediv, 'div')(a, b)
 
